@@ -29,6 +29,7 @@ package main
 // closure.
 
 import (
+	"regexp"
 	"fmt"
 	"go/constant"
 	"go/token"
@@ -1264,4 +1265,34 @@ func fieldOfLoad(v ssa.Value) *types.Var {
 		return fieldVar(f.X.Type(), f.Field)
 	}
 	return nil
+}
+
+var reTableListOrder = regexp.MustCompile(`(?i)order\s+by\s+(tbl_name|name)\b\s*(asc|desc)?\s*(,|limit|$)`)
+
+// checkSQLTableListOrder: the families of tables whose names embed a decimal
+// version (tree_<checkpoint>, snapshot_<version>) are listed from
+// sqlite_master; their names do not sort like their versions (snapshot_10 <
+// snapshot_9 as text).  A listing that is consumed in version order — the
+// shard list must be added in ascending order, the snapshot search takes the
+// first entry not above the target — must not be ordered by the bare name.
+func checkSQLTableListOrder(c *Ctx, l *Loaded, rule string) {
+	c.rule(rule, "listings of version-numbered tables are not ordered by the text of their names", 3)
+	w := newSQLWorld(l)
+	n := 0
+	for _, s := range w.sites {
+		for _, t := range s.texts {
+			lt := strings.ToLower(t)
+			if !strings.Contains(lt, "sqlite_master") || !strings.Contains(lt, "like '") {
+				continue
+			}
+			n++
+			bad := reTableListOrder.MatchString(strings.TrimSpace(t))
+			c.decide(rule, l.fname(s.fn)+" lists a family of version-numbered tables: "+strings.TrimSpace(t), l.ipos(s.in), !bad,
+				"not ordered by the bare table name",
+				"the listing of tables whose names embed a decimal version is ordered by the name as text: `_10` sorts before `_9`, so the consumer — which needs version order — adds shards out of order (reload fails with `unordered insert`) or picks an older snapshot than the one requested")
+		}
+	}
+	if n < 3 {
+		c.anchorMissing(rule, "fewer than 3 table-family listings found")
+	}
 }
